@@ -111,8 +111,11 @@ add('C19', "spec/PacketCodec.tla transcribes the pack/unpack layers (run-length,
     "pack/unpack as string payload, dict key and list item. spec/PacketQueue.tla (chunked appends, reads racing the write at every visible length, "
     "one corrupted byte, two readers) is model-checked (InOrderOnce, NothingPartial, ToldSafe, NothingLost, ToldMonotone, liveness EventuallyAll); an "
     "edge-covering set of behaviours of its state graph is replayed on real PacketzQueue objects over real files comparing delivered ids, _told and "
-    "_seen after every receive; the last record is also cut at every real byte offset.",
-    "Trusted: TLC, the abstract-to-real byte mapping of the replay rig. Packet ids assumed unique; '__class__' dict keys are reserved.",
+    "_seen after every receive; the last record is also cut at every real byte offset. The codec specification also models the loader's sniffing of "
+    "style-like strings (KF-C19-4); the queue specification states the packet-id assumption as a design switch (UniqueIds): TLC refutes NothingLost for ids "
+    "drawn from a wrapping generator, and the ids of ~10^5 real packets created back to back must be distinct; a packet the codec cannot decode, sent "
+    "between ordinary packets, must not disturb their delivery.",
+    "Trusted: TLC, the abstract-to-real byte mapping of the replay rig. Uniqueness of ids is checked within one process; '__class__' dict keys are reserved.",
     "TLA+ specs PacketCodec (exhaustive strings) and PacketQueue (model-checked, state graph replayed on real files)", "5 C19, 3.7")
 
 add('C20', "spec/Sgr.tla models SGR parameter assembly, wrapping, the ANSI_RE stripping automaton, the attribute reader of Style.from_raw and the "
@@ -139,7 +142,7 @@ add('C16', "spec/LeftRec.tla evaluates PegGrammar's left-call relation (Nullable
     "a closure, a positive closure, a nullable rule call, or a positive join / gather with a nullable or a non-nullable element; a larger deterministic slice in the thorough tier) and TLC checks the laws of the relation; each grammar is compiled with left recursion off (GrammarError <=> "
     "some rule on a left cycle) and on (rules on no cycle memoized and unmarked; every cycle component has a leader, read back from the model), and a "
     "battery of short inputs is parsed under a recursion limit and wall-clock guard (RecursionError / timeout = violation). Cycles hidden behind a call to "
-    "a rule that can match empty are bounded by a memo guard: on a family of such grammars with a cut placed in an optional / closure / lookahead / group / "
+    "a rule that can match empty are bounded by a memo guard; `$` counts as able to match empty, and rule includes / based rules are analysed through their documented expansions: on a family of such grammars with a cut placed in an optional / closure / lookahead / group / "
     "called rule, PegMachine (whose guards survive the pruning done by a cut) is model-checked and must agree with the engine on every text.",
     "Trusted: TLC, projections. Grammars with a nullable rule call in a prefix (the property's proviso) are checked dynamically only.",
     "TLA+ spec LeftRec/PegGrammar (static relation, exhaustive rule graphs) evaluated by TLC + replay of verdicts, marks and input battery", "5 C16, 3.7")
